@@ -13,6 +13,7 @@ import (
 	"path/filepath"
 	"regexp"
 	"runtime"
+	"sort"
 	"strconv"
 	"strings"
 	"sync"
@@ -1577,6 +1578,27 @@ func (e *Engine) DeleteSeriesRangeWithPredicate(itr tsdb.SeriesIterator, predica
 	return nil
 }
 
+// compareSeriesKeysInIndexOrder compares two series keys the way the TSM index orders their
+// composite keys (series key + keyFieldSeparator + field). That differs from comparing the
+// series keys themselves when one is a prefix of the other: the separator of the shorter
+// key is then compared with the rest of the longer one ("cpu,host=A!" sorts before "cpu,host=A").
+func compareSeriesKeysInIndexOrder(a, b []byte) int {
+	if len(a) == 0 || len(b) == 0 {
+		// crossed-out entries (emptyBytes) sort first
+		return bytes.Compare(a, b)
+	}
+	n := len(a)
+	if len(b) < n {
+		n = len(b)
+	}
+	if cmp := bytes.Compare(a[:n], b[:n]); cmp != 0 || len(a) == len(b) {
+		return cmp
+	}
+	ak := append(append(make([]byte, 0, len(a)+len(keyFieldSeparatorBytes)), a...), keyFieldSeparatorBytes...)
+	bk := append(append(make([]byte, 0, len(b)+len(keyFieldSeparatorBytes)), b...), keyFieldSeparatorBytes...)
+	return bytes.Compare(ak, bk)
+}
+
 // deleteSeriesRange removes the values between min and max (inclusive) from all series.  This
 // does not update the index or disable compactions.  This should mainly be called by DeleteSeriesRange
 // and not directly.
@@ -1612,9 +1634,10 @@ func (e *Engine) deleteSeriesRange(seriesKeys [][]byte, min, max int64) error {
 		return nil
 	}
 
-	// Ensure keys are sorted since lower layers require them to be.
-	if !bytesutil.IsSorted(seriesKeys) {
-		bytesutil.Sort(seriesKeys)
+	// Ensure keys are sorted the way the TSM index orders their composite keys, since the
+	// passes below walk the sorted index and this slice in lock-step.
+	if !sort.SliceIsSorted(seriesKeys, func(i, j int) bool { return compareSeriesKeysInIndexOrder(seriesKeys[i], seriesKeys[j]) < 0 }) {
+		sort.Slice(seriesKeys, func(i, j int) bool { return compareSeriesKeysInIndexOrder(seriesKeys[i], seriesKeys[j]) < 0 })
 	}
 
 	// Run the delete on each TSM file in parallel
@@ -1626,7 +1649,7 @@ func (e *Engine) deleteSeriesRange(seriesKeys [][]byte, min, max int64) error {
 		tsmMin, _ = SeriesAndFieldFromCompositeKey(tsmMin)
 		tsmMax, _ = SeriesAndFieldFromCompositeKey(tsmMax)
 
-		overlaps := bytes.Compare(tsmMin, maxKey) <= 0 && bytes.Compare(tsmMax, minKey) >= 0
+		overlaps := compareSeriesKeysInIndexOrder(tsmMin, maxKey) <= 0 && compareSeriesKeysInIndexOrder(tsmMax, minKey) >= 0
 		if !overlaps || !r.OverlapsTimeRange(min, max) {
 			return nil
 		}
@@ -1639,7 +1662,7 @@ func (e *Engine) deleteSeriesRange(seriesKeys [][]byte, min, max int64) error {
 			indexKey, _ := r.KeyAt(i)
 			seriesKey, _ := SeriesAndFieldFromCompositeKey(indexKey)
 
-			for j < len(seriesKeys) && bytes.Compare(seriesKeys[j], seriesKey) < 0 {
+			for j < len(seriesKeys) && compareSeriesKeysInIndexOrder(seriesKeys[j], seriesKey) < 0 {
 				j++
 			}
 
@@ -1668,7 +1691,7 @@ func (e *Engine) deleteSeriesRange(seriesKeys [][]byte, min, max int64) error {
 
 		// Cache does not walk keys in sorted order, so search the sorted
 		// series we need to delete to see if any of the cache keys match.
-		i := bytesutil.SearchBytes(seriesKeys, seriesKey)
+		i := sort.Search(len(seriesKeys), func(i int) bool { return compareSeriesKeysInIndexOrder(seriesKeys[i], seriesKey) >= 0 })
 		if i < len(seriesKeys) && bytes.Equal(seriesKey, seriesKeys[i]) {
 			// k is the measurement + tags + sep + field
 			deleteKeys = append(deleteKeys, k)
@@ -1718,14 +1741,14 @@ func (e *Engine) deleteSeriesRange(seriesKeys [][]byte, min, max int64) error {
 
 			// Skip over any deleted keys that are less than our tsm key
 			seriesKeysLock.RLock()
-			cmp := bytes.Compare(seriesKeys[j], seriesKey)
+			cmp := compareSeriesKeysInIndexOrder(seriesKeys[j], seriesKey)
 			for j < len(seriesKeys) && cmp < 0 {
 				j++
 				if j >= len(seriesKeys) {
 					seriesKeysLock.RUnlock()
 					return nil
 				}
-				cmp = bytes.Compare(seriesKeys[j], seriesKey)
+				cmp = compareSeriesKeysInIndexOrder(seriesKeys[j], seriesKey)
 			}
 			seriesKeysLock.RUnlock()
 
@@ -1751,7 +1774,8 @@ func (e *Engine) deleteSeriesRange(seriesKeys [][]byte, min, max int64) error {
 			continue
 		}
 
-		j := bytesutil.SearchBytes(cacheKeys, seriesKey)
+		// The composite keys of a series all start with the series key and the separator.
+		j := bytesutil.SearchBytes(cacheKeys, append(append(make([]byte, 0, len(seriesKey)+len(keyFieldSeparatorBytes)), seriesKey...), keyFieldSeparatorBytes...))
 		if j < len(cacheKeys) {
 			cacheSeriesKey, _ := SeriesAndFieldFromCompositeKey(cacheKeys[j])
 			if bytes.Equal(seriesKey, cacheSeriesKey) {
@@ -1789,12 +1813,13 @@ func (e *Engine) deleteSeriesRange(seriesKeys [][]byte, min, max int64) error {
 			}
 
 			// See if this series was found in the cache earlier
-			i := bytesutil.SearchBytes(deleteKeys, k)
+			prefix := append(append(make([]byte, 0, len(k)+len(keyFieldSeparatorBytes)), k...), keyFieldSeparatorBytes...)
+			i := bytesutil.SearchBytes(deleteKeys, prefix)
 
 			var hasCacheValues bool
-			// If there are multiple fields, they will have the same prefix.  If any field
-			// has values, then we can't delete it from the index.
-			for i < len(deleteKeys) && bytes.HasPrefix(deleteKeys[i], k) {
+			// If there are multiple fields, they will have the same prefix (the series key and
+			// the separator).  If any field has values, then we can't delete it from the index.
+			for i < len(deleteKeys) && bytes.HasPrefix(deleteKeys[i], prefix) {
 				if e.Cache.Values(deleteKeys[i]).Len() > 0 {
 					hasCacheValues = true
 					break
